@@ -1,23 +1,30 @@
 package main
 
 // C10: GoLite targets (docs/GOLITE_NOTES.md). Theorems: coq/props/C10_Generated.v
+// (proofs in coq/theories/C10_GenProofs.v), table in docs/audit/C10.md section "GoLite".
 func init() {
 	const n = "github.com/notaryproject/notation-go"
 	const reg = ".../registry"
+	const oreg = "oras.land/oras-go/v2/registry"
 	Register("C10", []Target{
 		{Pkg: "crypto/x509", Type: "Certificate", Opaque: true},
-		{Pkg: reg, Type: "Repository", Opaque: true},
+		// the two arguments of notation.Verify are interface values that may be nil
+		{Pkg: reg, Type: "Repository", Opaque: true, Nilable: true},
+		{Pkg: n, Type: "Verifier", Opaque: true, Nilable: true},
+		{Pkg: n, Type: "verifySkipper", Opaque: true, Nilable: true},
+		// the repository (oracles): Resolve, FetchSignatureBlob; ListSignatures hands consecutive pages
+		// to its callback, stops at the first error the callback returns and returns it
 		{Pkg: reg, Func: "Repository.Resolve", Oracle: true},
-		{Pkg: reg, Func: "Repository.ListSignatures", Oracle: true},
+		{Pkg: reg, Func: "Repository.ListSignatures", Oracle: true, Callback: "fn"},
 		{Pkg: reg, Func: "Repository.FetchSignatureBlob", Oracle: true},
-		{Pkg: "oras.land/oras-go/v2/registry", Func: "ParseReference", Oracle: true},
-		{Pkg: "oras.land/oras-go/v2/registry", Func: "Reference.ValidateReferenceAsDigest", Oracle: true},
-		{Pkg: "github.com/opencontainers/go-digest", Func: "Digest.String"},
-		{Pkg: n, Type: "Verifier", Opaque: true},
-		{Pkg: n, Func: "Verifier.Verify", Oracle: true},
-		{Pkg: n, Type: "verifySkipper", Opaque: true},
+		// the verifier (oracles); the outcome a failed verification returns is owned by the caller
+		// (notation.go:566 writes outcome.Error)
+		{Pkg: n, Func: "Verifier.Verify", Oracle: true, FreshResults: true},
 		{Pkg: n, Func: "verifySkipper.SkipVerify", Oracle: true},
+		// oras: reference parsing (oracles); go-digest: Digest.String is the identity
+		{Pkg: oreg, Func: "ParseReference", Oracle: true},
+		{Pkg: oreg, Func: "Reference.ValidateReferenceAsDigest", Oracle: true},
+		{Pkg: "github.com/opencontainers/go-digest", Func: "Digest.String"},
 		{Pkg: n, Func: "Verify"},
-		{Pkg: n, Func: "VerifyBlob"},
 	})
 }
